@@ -5,5 +5,6 @@ CONSTANTS
   MaxMut = 100
   MaxTrav = 100
 CONSTANT HiddenSets <- SomeHidden
+CONSTANT ClassMaps <- MixedMap
 VIEW CoverView
 INVARIANTS CoverInv
